@@ -32,11 +32,12 @@ type c05Fault struct {
 
 type c05Case struct {
 	Secret int        `json:"secret"`
-	Dir    string     `json:"dir"`    // receiver: "acc" (accessory-side session receives c2a) | "ctl"
-	Prior  int        `json:"prior"`  // messages exchanged before (advances both counters)
-	Start  uint64     `json:"start"`  // frame counters of both directions preset to this value (0 = untouched)
-	Lens   []int      `json:"lens"`   // message lengths of the stream under attack
-	Faults []c05Fault `json:"faults"` // applied in order
+	Dir    string     `json:"dir"`            // receiver: "acc" (accessory-side session receives c2a) | "ctl"
+	Prior  int        `json:"prior"`          // messages exchanged before (advances both counters)
+	Start  uint64     `json:"start"`          // frame counters of both directions preset to this value (0 = untouched)
+	Lens   []int      `json:"lens"`           // message lengths of the stream under attack
+	Faults []c05Fault `json:"faults"`         // applied in order
+	Busy   bool       `json:"busy,omitempty"` // the receiving side also SENDS (Encrypt) between the reads that deliver the stream
 }
 
 type c05Frame struct {
@@ -273,13 +274,18 @@ func c05Exec(c *fw.Ctx, cas c05Case) {
 	}
 	nontrivial := !bytes.Equal(alt, s.stream)
 	rd := bytes.NewReader(alt)
+	var src io.Reader = rd
+	if cas.Busy {
+		kinds = "busy/" + kinds
+		src = &busyReader{r: rd, sess: s.recv}
+	}
 	var released []byte
 	var derr error
 	calls := 0
 	if pn := guard(func() {
 		for {
 			calls++
-			r, e := s.recv.Decrypt(rd)
+			r, e := s.recv.Decrypt(src)
 			if e != nil {
 				derr = e
 				return
@@ -415,6 +421,25 @@ func c05Conn(c *fw.Ctx, cas c05Case) {
 	c.Class(fmt.Sprintf("%serr=%v", kinds, rerr != nil && !timeout))
 }
 
+// busyReader delivers the stream in small pieces and makes the receiving session encrypt an outgoing message
+// between any two pieces — what happens when the accessory writes a response or an event while a frame is arriving.
+type busyReader struct {
+	r    *bytes.Reader
+	sess hccrypto.Cryptographer
+	n    int
+}
+
+func (b *busyReader) Read(p []byte) (int, error) {
+	if b.n > 0 {
+		b.sess.Encrypt(bytes.NewReader([]byte{byte(b.n), 2, 3}))
+	}
+	b.n++
+	if len(p) > 700 {
+		p = p[:700]
+	}
+	return b.r.Read(p)
+}
+
 func frameBoundary(s *c05Setup, p int) bool {
 	if p == 0 {
 		return true
@@ -526,6 +551,9 @@ func c05Run(c *fw.Ctx) {
 				idx++
 				if c.Mine(idx) {
 					c05Exec(c, base) // unaltered control
+					busy := base
+					busy.Busy = true
+					c05Exec(c, busy)
 				}
 				singles := c05Singles(s, c.Thorough())
 				for _, f := range singles {
@@ -539,6 +567,11 @@ func c05Run(c *fw.Ctx) {
 						c.Sample(cas)
 					}
 					c05Exec(c, cas)
+					if f.Kind != "flip" && f.Kind != "truncate" {
+						busy := cas
+						busy.Busy = true
+						c05Exec(c, busy)
+					}
 					if dir == "acc" && len(s.stream) < 2200 && (f.Kind != "flip" || f.A%8 == 3 || c.Thorough()) {
 						c05Conn(c, cas) // the same fault one level up, through hap.Connection.Read
 					}
@@ -592,7 +625,7 @@ func init() {
 	fw.Register(&fw.Check{
 		ID:     "C05",
 		Level:  "fault_enumeration",
-		Rule:   "for 20 stream shapes (0–4 frames, message lengths around 1, 1023..1025, k·1024; frame counters starting at 0, 1, 300 and — preset through reflection — 2^32−1, 2^32, 2^32+5, 2^40, 2^63−1, 2^64−4) × both receiving directions × secrets: every single-bit flip of the whole ciphertext stream, truncation at every byte offset, every frame deletion, duplication at every position, every non-identity permutation, reflection of the receiver's own frames, same-index frames of a session with another secret, a frame the same sender sealed 2^32 counters earlier, forged frames (empty with an arbitrary tag — replacing a frame or inserted anywhere —, or arbitrary bytes of the original length), byte insertion/removal at frame edges; thorough adds all ordered pairs of faults from a reduced menu on the small shapes. Sender = reference framing, receiver = hc's real session; for streams under 2200 bytes the same faults are also fed one level up through a real hap.Connection (released bytes, error, nothing released to a caller that keeps reading after the error). distinct_nontrivial = distinct (fault kinds, error reported?) classes among faults that changed at least one byte",
+		Rule:   "for 20 stream shapes (0–4 frames, message lengths around 1, 1023..1025, k·1024; frame counters starting at 0, 1, 300 and — preset through reflection — 2^32−1, 2^32, 2^32+5, 2^40, 2^63−1, 2^64−4) × both receiving directions × secrets: every single-bit flip of the whole ciphertext stream, truncation at every byte offset, every frame deletion, duplication at every position, every non-identity permutation, reflection of the receiver's own frames, same-index frames of a session with another secret, a frame the same sender sealed 2^32 counters earlier, forged frames (empty with an arbitrary tag — replacing a frame or inserted anywhere —, or arbitrary bytes of the original length), byte insertion/removal at frame edges; thorough adds all ordered pairs of faults from a reduced menu on the small shapes. Sender = reference framing, receiver = hc's real session (also while the receiving session encrypts outgoing messages between the reads that deliver the stream); for streams under 2200 bytes the same faults are also fed one level up through a real hap.Connection (released bytes, error, nothing released to a caller that keeps reading after the error). distinct_nontrivial = distinct (fault kinds, error reported?) classes among faults that changed at least one byte",
 		Run:    c05Run,
 		Budget: func(string) time.Duration { return 25 * time.Minute },
 		Replay: func(c *fw.Ctx, raw json.RawMessage) {
